@@ -16,6 +16,7 @@ mod ops;
 mod oracle;
 mod panics;
 mod subjects;
+mod sweeps;
 mod track;
 
 #[global_allocator]
